@@ -881,6 +881,52 @@ func collectMethAtoms(rs []*Rule) []methAtom {
 	return out
 }
 
+// container and selector of an element variable text C[sel] (outermost trailing bracket), ok=false for anything else
+func splitElem(t string) (string, string, bool) {
+	if !strings.HasSuffix(t, "]") {
+		return "", "", false
+	}
+	depth := 0
+	for i := len(t) - 1; i >= 0; i-- {
+		switch t[i] {
+		case ']':
+			depth++
+		case '[':
+			depth--
+			if depth == 0 {
+				return t[:i], t[i+1 : len(t)-1], true
+			}
+		}
+	}
+	return "", "", false
+}
+
+func literalSel(sel string) bool {
+	if sel == "" {
+		return false
+	}
+	if sel[0] == '"' || sel[0] == '\'' {
+		return true
+	}
+	for _, c := range sel {
+		if !(c >= '0' && c <= '9') && c != '-' {
+			return false
+		}
+	}
+	return true
+}
+
+// an assignment to the element tgt also concerns the element variable v of the same container when their selectors may
+// denote the same element: any pair except two different literals (the engine's ResetElement)
+func mayAliasText(tgt, v string) bool {
+	c1, s1, ok1 := splitElem(tgt)
+	c2, s2, ok2 := splitElem(v)
+	if !ok1 || !ok2 || c1 != c2 || tgt == v {
+		return false
+	}
+	return !(literalSel(s1) && literalSel(s2))
+}
+
 func c13Oracle(s EngScenario, obs EngObs) string {
 	rule := map[string]*Rule{}
 	for _, r := range s.Rules {
@@ -903,7 +949,7 @@ func c13Oracle(s EngScenario, obs EngObs) string {
 				if st.Kind == "assign" {
 					tgt := noSpace(st.X.grl())
 					for _, v := range a.vars {
-						if v == tgt || strings.HasPrefix(v, tgt+".") || strings.HasPrefix(v, tgt+"[") || (a.name == "GetI64" && tgt == "F.I64") {
+						if v == tgt || strings.HasPrefix(v, tgt+".") || strings.HasPrefix(v, tgt+"[") || (a.name == "GetI64" && tgt == "F.I64") || mayAliasText(tgt, v) {
 							inval = true
 						}
 					}
